@@ -321,7 +321,11 @@ def run_case(spec):
     counters = {'cases': 1}
     try:
         paths = cv.write_case(case, wd)
-        fa, _ = cvmon.execute(case, wd, paths)
+        try:
+            fa, _ = cvmon.execute(case, wd, paths)
+        except Exception:
+            # callVariant only PRODUCES the input of this check; its crashes on valid input are decided by C01
+            return {'nontrivial': False, 'counters': {'cases': 1, 'input_generation_crashed': 1}}
         if not fa:
             return {'nontrivial': False, 'counters': {'cases': 1, 'empty_fasta': 1}}
         return judge(rng, case.ref, wd, fa, counters, viol)
